@@ -1092,7 +1092,10 @@ class Engine:
             return Num(z3.If(c, a.real(), b.real()) if a.is_int != b.is_int else z3.If(c, a.t, b.t), npy=a.npy or b.npy, taint=tt)
         if isinstance(a, BoolV) and isinstance(b, BoolV):
             return BoolV(z3.If(c, a.t, b.t), taint=tt)
-        o = Obj(z3.If(c, self.to_V(a), self.to_V(b)), taint=tt)
+        ta, tb = self.to_V(a), self.to_V(b)
+        if ta is not None and tb is not None and z3.eq(ta, tb) and isinstance(a, Obj):
+            return a                                  # both branches are the same value (x.f() if hasattr(x, 'f') else f(x))
+        o = Obj(z3.If(c, ta, tb), taint=tt)
         o.ghost = {'ite': (c, a, b)}
         return o
 
